@@ -302,13 +302,13 @@ def finish(prop, tier, level, coverage, assumptions, t0, violations, known_lines
 
 
 # ---------------------------------------------------------------- generic correspondence
-def corr_judge(driver, case_file, timeout=1800):
+def corr_judge(driver, case_file, timeout=1800, dargs=()):
     """case lines `<id> : … : <impl results>`; the driver prints `<id> M <model results> | J <0/1>`
     (or passes ERROR lines through). Returns a list of dicts."""
     lines = [l for l in open(case_file).read().split("\n") if l.strip()]
     if not lines:
         return []
-    rc, out = run([driver], input="\n".join(lines) + "\n", timeout=timeout)
+    rc, out = run([driver] + list(dargs), input="\n".join(lines) + "\n", timeout=timeout)
     if rc != 0:
         raise CheckError("model driver failed: " + out[-2000:])
     mlines = [l for l in out.split("\n") if l.strip()]
@@ -341,7 +341,7 @@ def corr_generate(harness, n, sd, tag, extra=(), timeout=1800):
     return cases
 
 
-def corr_replay(harness, driver, line, tag):
+def corr_replay(harness, driver, line, tag, dargs=()):
     """run one case line through implementation and model again"""
     tin = os.path.join(CACHE, "%s_replay.in" % tag)
     tout = os.path.join(CACHE, "%s_replay.out" % tag)
@@ -349,11 +349,11 @@ def corr_replay(harness, driver, line, tag):
     rc, out = run([harness, "--replay", tin, tout], timeout=600)
     if rc != 0:
         return None
-    r = corr_judge(driver, tout)
+    r = corr_judge(driver, tout, dargs=dargs)
     return r[0] if r else None
 
 
-def corr_shrink(harness, driver, r, pred, candidates, tag, budget=150):
+def corr_shrink(harness, driver, r, pred, candidates, tag, budget=150, dargs=()):
     """greedy shrinking: candidates(line) yields smaller case lines; keep one while pred holds"""
     best = r
     improved = True
@@ -363,7 +363,7 @@ def corr_shrink(harness, driver, r, pred, candidates, tag, budget=150):
             budget -= 1
             if budget <= 0:
                 break
-            rr = corr_replay(harness, driver, cand, tag)
+            rr = corr_replay(harness, driver, cand, tag, dargs=dargs)
             if rr is not None and "error" not in rr and pred(rr):
                 best, improved = rr, True
                 break
